@@ -7,6 +7,11 @@
 //          snn    SimpleNearestNeighbors only (F6 search; many queries, few batches)
 //          f7     ErrorFunction over a model containing a DropoutLayer on random::globalRng (re-seeded)
 //          share  concurrent shared copies / indexedSubset of one dataset from all threads
+//          cases <file>  correspondence with the extracted models (one output line per input line):
+//                 split  which batches each worker of ErrorFunction::eval/evalDerivative,
+//                        NegativeLogLikelihood::evalDerivative evaluates (recorded by the model plugged in)
+//                 slice  which cells of SimpleNearestNeighbors' heap array each thread writes (recorded by the label type)
+//                 rcseq / rcpar  use_count / expiry of the batches of real Data objects under copy, indexedSubset, destruction
 // -DC20_SCHEDULE_RUNTIME: the library's `omp parallel for` (implementation-defined default schedule) is
 // compiled as `schedule(runtime)` so that OMP_SCHEDULE can explore other admissible schedules.
 #include <vector>
@@ -183,7 +188,187 @@ static void mode_share(std::size_t n, std::size_t bs, std::size_t reps){
 	printf("share.elements %zu\n", data.numberOfElements());
 }
 
+// ------------------------------------------------------------------------------------------------ cases mode
+#include <fstream>
+#include <sstream>
+#include <memory>
+#include <boost/weak_ptr.hpp>
+
+// a linear model that records, per OpenMP thread, the batches it is asked to evaluate (first coordinate = batch number)
+struct RecModel : public LinearModel<> {
+	mutable std::vector<std::vector<long> > seen;
+	RecModel(std::size_t d, std::size_t o) : LinearModel<>(d, o, true) {}
+	void reset(){ seen.assign(omp_get_max_threads(), std::vector<long>()); }
+	void eval(BatchInputType const& in, BatchOutputType& out) const { seen[omp_get_thread_num()].push_back((long)in(0,0)); LinearModel<>::eval(in, out); }
+	void eval(BatchInputType const& in, BatchOutputType& out, State& s) const { seen[omp_get_thread_num()].push_back((long)in(0,0)); LinearModel<>::eval(in, out, s); }
+	using LinearModel<>::eval;
+	std::string show() const {
+		std::string r;
+		for(auto const& v : seen){ if(v.empty()) continue; if(!r.empty()) r += "|"; for(std::size_t i = 0; i != v.size(); ++i){ if(i) r += ","; r += std::to_string(v[i]); } }
+		return r;
+	}
+};
+
+static std::string case_split(std::string const& route, std::size_t nb, std::size_t nt){
+	omp_set_num_threads((int)nt);
+	std::size_t bs = 2, n = nb * bs, d = 2;
+	std::vector<RealVector> in(n, RealVector(d)), lab(n, RealVector(1));
+	for(std::size_t i = 0; i != n; ++i){ in[i](0) = (double)(i / bs); in[i](1) = 1.0 + (double)(i % 3); lab[i](0) = (double)(i % 2); }
+	RecModel model(d, 1); RealVector p(model.numberOfParameters()); for(std::size_t i = 0; i != p.size(); ++i) p(i) = 0.5; model.setParameterVector(p);
+	model.reset();
+	if(route == "ef.eval" || route == "ef.evalDerivative"){
+		LabeledData<RealVector,RealVector> data = createLabeledDataFromRange(in, lab, bs);
+		if(data.numberOfBatches() != nb) return "BADBATCHES";
+		SquaredLoss<> loss; ErrorFunction<> e(data, &model, &loss); ErrorFunction<>::FirstOrderDerivative g;
+		if(route == "ef.eval") e.eval(p); else e.evalDerivative(p, g);
+	}else if(route == "nll.evalDerivative"){
+		UnlabeledData<RealVector> ud = createDataFromRange(in, bs);
+		if(ud.numberOfBatches() != nb) return "BADBATCHES";
+		NegativeLogLikelihood nll(ud, &model); RealVector g; nll.evalDerivative(p, g);
+	}else return "NOROUTE";
+	return model.show();
+}
+
+// label type whose assignments record (thread, address): which cells of the heap array a thread writes.
+// Phases of getNeighbors are told apart by the default constructions it performs outside parallel regions:
+// one for the prototype `LabelType()` of the heap array, then k*numPatterns for `results` after the first region.
+struct TraceLabel {
+	unsigned id;
+	static std::vector<std::vector<TraceLabel const*> > written;   // per thread, first region only
+	static int defaults; static bool armed;
+	TraceLabel() : id(0) { if(armed && !omp_in_parallel()) ++defaults; }
+	explicit TraceLabel(unsigned i) : id(i) {}
+	TraceLabel(TraceLabel const& o) : id(o.id) {}
+	TraceLabel& operator=(TraceLabel const& o){ id = o.id; if(armed && defaults <= 1 && omp_in_parallel()) written[omp_get_thread_num()].push_back(this); return *this; }
+	template<class A> void serialize(A& ar, unsigned int){ ar & id; }
+};
+std::vector<std::vector<TraceLabel const*> > TraceLabel::written; int TraceLabel::defaults = 0; bool TraceLabel::armed = false;
+
+static std::string case_slice(std::size_t k, std::size_t P, std::size_t T){
+	omp_set_num_threads((int)T);
+	std::size_t d = 2, nbat = 2 * T + 1, bs = 3, n = nbat * bs;
+	std::vector<RealVector> in(n, RealVector(d)); std::vector<TraceLabel> lab(n);
+	for(std::size_t i = 0; i != n; ++i){ in[i](0) = (double)((i * 7) % 11); in[i](1) = (double)((i * 5) % 13); lab[i] = TraceLabel((unsigned)i); }
+	LabeledData<RealVector,TraceLabel> data = createLabeledDataFromRange(in, lab, bs);
+	LinearKernel<> kern; SimpleNearestNeighbors<RealVector,TraceLabel> nn(data, &kern);
+	RealMatrix Q(P, d); for(std::size_t i = 0; i != P; ++i){ Q(i,0) = (double)(i % 5); Q(i,1) = (double)((3 * i) % 7); }
+	TraceLabel::written.assign(T, std::vector<TraceLabel const*>()); TraceLabel::defaults = 0; TraceLabel::armed = true;
+	typedef KeyValuePair<double,TraceLabel> Cell;
+	std::vector<Cell> res = nn.getNeighbors(Q, k);
+	TraceLabel::armed = false;
+	// cell 0 = lowest address written: thread 0 runs batch 0 (static schedule) and the heap (p=0,t=0) receives elements
+	char const* base = 0;
+	for(auto const& v : TraceLabel::written) for(auto q : v){ char const* c = (char const*)q; if(base == 0 || c < base) base = c; }
+	std::ostringstream os;
+	for(std::size_t t = 0; t != T; ++t){
+		std::vector<long> cells;
+		for(auto q : TraceLabel::written[t]) cells.push_back(((char const*)q - base) / (long)sizeof(Cell));
+		std::sort(cells.begin(), cells.end()); cells.erase(std::unique(cells.begin(), cells.end()), cells.end());
+		os << "t" << t << ":";
+		for(std::size_t i = 0; i != cells.size(); ++i){ if(i) os << ","; os << cells[i]; }
+		if(t + 1 != T) os << " ";
+	}
+	return os.str();
+}
+
+struct PeekData : public Data<RealVector> {
+	static boost::shared_ptr<RealMatrix> const& ptr(Data<RealVector> const& d, std::size_t i){ return (d.*(&PeekData::m_data)).pointer(i); }
+};
+
+static std::string observe(std::vector<boost::weak_ptr<RealMatrix> > const& w){
+	std::ostringstream os;
+	for(std::size_t b = 0; b != w.size(); ++b){ if(b) os << ","; os << w[b].use_count() << "/" << (w[b].expired() ? 1 : 0); }
+	return os.str();
+}
+
+static std::vector<std::size_t> csv(std::string const& s){
+	std::vector<std::size_t> r; std::stringstream ss(s); std::string x;
+	while(std::getline(ss, x, ',')) if(!x.empty()) r.push_back(std::stoul(x));
+	return r;
+}
+static std::vector<std::string> fields(std::string const& s, char c){
+	std::vector<std::string> r; std::stringstream ss(s); std::string x;
+	while(std::getline(ss, x, c)) r.push_back(x);
+	return r;
+}
+
+typedef std::unique_ptr<Data<RealVector> > Handle;
+static Handle make_root(std::size_t B, std::vector<boost::weak_ptr<RealMatrix> >& w){
+	std::vector<RealVector> in(2 * B, RealVector(2)); for(std::size_t i = 0; i != in.size(); ++i){ in[i](0) = (double)i; in[i](1) = 7.0 * i; }
+	Handle root(new Data<RealVector>(createDataFromRange(in, 2)));
+	for(std::size_t b = 0; b != B; ++b) w.push_back(boost::weak_ptr<RealMatrix>(PeekData::ptr(*root, b)));
+	return root;
+}
+
+static std::string case_rcseq(std::size_t B, std::vector<std::string> const& ops){
+	std::vector<boost::weak_ptr<RealMatrix> > w; std::vector<Handle> hs; hs.push_back(make_root(B, w));
+	if(hs[0]->numberOfBatches() != B) return "BADBATCHES";
+	std::string out;
+	for(auto const& o : ops){
+		auto f = fields(o, ':'); std::size_t h = std::stoul(f[2]);
+		if(h >= hs.size() || !hs[h]) return "DISABLED";
+		if(f[0] == "c") hs.push_back(Handle(new Data<RealVector>(*hs[h])));
+		else if(f[0] == "s"){ auto idx = csv(f.size() > 3 ? f[3] : ""); for(auto i : idx) if(i >= hs[h]->numberOfBatches()) return "DISABLED";
+			hs.push_back(Handle(new Data<RealVector>(hs[h]->indexedSubset(idx)))); }
+		else if(f[0] == "r") hs[h].reset();
+		if(!out.empty()) out += " ; ";
+		out += observe(w);
+	}
+	return out;
+}
+
+static std::string case_rcpar(std::size_t B, std::size_t T, std::vector<std::vector<std::string> > const& scripts){
+	std::vector<boost::weak_ptr<RealMatrix> > w; Handle root = make_root(B, w);
+	Data<RealVector> const& shared = *root;
+	std::vector<std::vector<Handle> > kept(T);
+	int bad = 0;
+	#pragma omp parallel num_threads((int)T) reduction(+:bad)
+	{
+		std::size_t me = omp_get_thread_num();
+		std::vector<Handle> own(1);           // own[0] unused: 0 names the shared root
+		if(me < scripts.size()) for(auto const& o : scripts[me]){
+			auto f = fields(o, ':'); std::size_t h = std::stoul(f[1]);
+			Data<RealVector> const* src = h == 0 ? &shared : (h < own.size() ? own[h].get() : 0);
+			if(src == 0){ ++bad; break; }
+			if(f[0] == "c") own.push_back(Handle(new Data<RealVector>(*src)));
+			else if(f[0] == "s") own.push_back(Handle(new Data<RealVector>(src->indexedSubset(csv(f.size() > 2 ? f[2] : "")))));
+			else if(f[0] == "r") own[h].reset();
+			else if(f[0] == "k") kept[me].push_back(std::move(own[h]));
+		}
+		for(auto const& x : own) if(x) ++bad;   // scripts release or hand over everything they create
+	}
+	if(bad) return "DISABLED";
+	std::string out = observe(w);
+	root.reset(); out += " ; " + observe(w);
+	for(auto& v : kept) for(auto& x : v) x.reset();
+	out += " ; " + observe(w);
+	return out;
+}
+
+static int mode_cases(char const* file){
+	std::ifstream f(file); std::string line;
+	while(std::getline(f, line)){
+		std::string hd = line.substr(0, line.find('|')), tl = line.find('|') == std::string::npos ? "" : line.substr(line.find('|') + 1);
+		std::stringstream ss(hd); std::vector<std::string> tk; std::string x; while(ss >> x) tk.push_back(x);
+		if(tk.empty()) continue;
+		std::string out = "BADLINE";
+		if(tk[0] == "split" && tk.size() >= 5) out = case_split(tk[2], std::stoul(tk[3]), std::stoul(tk[4]));
+		else if(tk[0] == "slice" && tk.size() >= 6) out = case_slice(std::stoul(tk[3]), std::stoul(tk[4]), std::stoul(tk[5]));
+		else if(tk[0] == "rcseq" && tk.size() == 2){ std::stringstream s2(tl); std::vector<std::string> ops; while(s2 >> x) ops.push_back(x); out = case_rcseq(std::stoul(tk[1]), ops); }
+		else if(tk[0] == "rcpar" && tk.size() == 4){
+			std::vector<std::vector<std::string> > scripts;
+			for(auto const& s : fields(tl, ';')){ std::stringstream s2(s); std::vector<std::string> ops; while(s2 >> x) ops.push_back(x); scripts.push_back(ops); }
+			out = case_rcpar(std::stoul(tk[1]), std::stoul(tk[2]), scripts);
+		}
+		printf("%s\n", out.c_str()); fflush(stdout);
+	}
+	return 0;
+}
+
 int main(int argc, char** argv){
+	if(argc > 2 && std::string(argv[1]) == "cases"){
+		try{ return mode_cases(argv[2]); }catch(std::exception const& ex){ printf("EXC %s\n", ex.what()); return 3; }
+	}
 	std::string mode = argc > 1 ? argv[1] : "det";
 	rs = argc > 2 ? strtoull(argv[2], 0, 10) * 2654435761ULL + 1 : 1;
 	std::size_t reps = argc > 3 ? strtoul(argv[3], 0, 10) : 1;
